@@ -23,3 +23,18 @@ func reducerBroadcasted(y tensor.Tensor, x tensor.Tensor, dim int) (o tensor.Ten
 
 	return o, nil
 }
+
+// patchedRegion gives the explicit ranges a source of the given shape occupies
+// when patched at index (omitted ranges and {0,0} start at offset 0)
+func patchedRegion(index []tensor.Range, srcShape []int) (region []tensor.Range) {
+	region = make([]tensor.Range, len(srcShape))
+	for i := range region {
+		if i >= len(index) || (index[i].From == 0 && index[i].To == 0) {
+			region[i] = tensor.Range{From: 0, To: srcShape[i]}
+		} else {
+			region[i] = index[i]
+		}
+	}
+
+	return region
+}
